@@ -15,15 +15,20 @@ SeqsUpTo(S, n) == UNION {[1..k -> S] : k \in 0..n}
 
 \* The replay harness chooses the bytes; it can always reach a size inside the jumble domain except
 \* when every item is a known one of the exact length and they are too few -- then the size is forced.
-Forced(k, s) == \A i \in 1..Len(s) : IsKnown(s[i].tc) /\ s[i].lenOK /\ KnownLen(k, s[i].tc) > 0
+Forced(k, s) == \A i \in 1..Len(s) : IsKnown(Cls(s[i])) /\ s[i].lenOK /\ KnownLen(k, Cls(s[i])) > 0
 NominalSize == 100
 SizeOf(k, s) == LET raw == RawLenKnown([kind |-> k, items |-> s])
                 IN  IF Forced(k, s) /\ ~SizeOK(raw) THEN raw ELSE NominalSize
 
+\* items over one representative typecode per class
+RepItem == {[n |-> Rep(tc), lenOK |-> b] : tc \in TC, b \in BOOLEAN}
 Domain == {[kind |-> k, items |-> s, padding |-> p, size |-> SizeOf(k, s), struct |-> "ok"] :
-              k \in Kinds, s \in SeqsUpTo(Item, MaxLen), p \in {"hrp", "wrong"}}
+              k \in Kinds, s \in SeqsUpTo(RepItem, MaxLen), p \in {"hrp", "wrong"}}
 
-Code(it) == 2 * (Ord(it.tc) - 1) + (IF it.lenOK THEN 1 ELSE 0)
+\* an item travels as  2 * (index of its class) + lenOK ; the harness picks the number inside the class
+Code(it) == 2 * (Ord(Cls(it)) - 1) + (IF it.lenOK THEN 1 ELSE 0)
+ASSUME \A tc \in TC : TcClass(Rep(tc)) = tc
+ASSUME \A a, b \in TC : (Ord(a) < Ord(b)) = (Rep(a) < Rep(b))
 Constructible(cc) == \A i \in 1..Len(cc.items) : ItemOK(cc.kind, cc.items[i])
 
 Case(cc) == [k   |-> cc.kind,
